@@ -292,4 +292,40 @@ def collidesWith (asset : Bytes) (e : Price) : Bool :=
 `asset ++ "band"` or `asset` unless it is an (asset, elys) / (asset, band) / (asset, _) entry. -/
 def noCollision (st : St) (asset : Bytes) : Bool := (allPrices st).all (fun e => !collidesWith asset e)
 
+/-! ### histories -/
+
+/-- everything that can touch the oracle store. `setPrice` stands for the writers that bypass the
+feeder gate by design (genesis, the Band IBC packet handler, a migration); its timestamp and height
+are `uint64` fields. -/
+inductive Op
+  | setPrice (p : Price)
+  | removePrice (asset source : Bytes) (ts : Nat)
+  | feed (signer : Bytes) (f : Feed) (time height : Int)
+  | feedMulti (signer : Bytes) (fs : List Feed) (time height : Int)
+  | endBlock (time height : Int)
+  | setFeeder (feeder : Bytes) (active : Bool)
+  | deleteFeeder (feeder : Bytes)
+  | addFeeders (auth : Bytes) (fs : List Bytes)
+  | removeFeeders (auth : Bytes) (fs : List Bytes)
+  | setInfo (denom : Bytes) (i : AssetInfo)
+  | removeInfo (denom : Bytes)
+  | setParams (p : Params)
+deriving Repr, DecidableEq, Inhabited
+
+def step (st : St) : Op → St
+  | .setPrice p => setPrice st { p with ts := u64 p.ts, height := u64 p.height }
+  | .removePrice a s ts => removePrice st a s ts
+  | .feed signer f t h => commit st (feedPrice st signer f t h)
+  | .feedMulti signer fs t h => commit st (feedMultiple st signer fs t h)
+  | .endBlock t h => endBlock st t h
+  | .setFeeder a act => commit st (msgSetPriceFeeder st a act)
+  | .deleteFeeder a => commit st (msgDeletePriceFeeder st a)
+  | .addFeeders auth fs => commit st (msgAddPriceFeeders st auth fs)
+  | .removeFeeders auth fs => commit st (msgRemovePriceFeeders st auth fs)
+  | .setInfo d i => setAssetInfo st d i
+  | .removeInfo d => removeAssetInfo st d
+  | .setParams p => { st with params := p }
+
+def run (st : St) (ops : List Op) : St := ops.foldl step st
+
 end Elys.Oracle
